@@ -23,6 +23,10 @@ SIDE_NAMES = {
 }
 
 
+def last_attr_(c):
+    return c.func.attr if isinstance(c.func, ast.Attribute) else (c.func.id if isinstance(c.func, ast.Name) else None)
+
+
 def side_of(token):
     t = str(token).strip().lstrip('-')
     for side, names in SIDE_NAMES.items():
@@ -171,7 +175,8 @@ def _run_base(ctx):
             for t, body, nd in arms:
                 strat_vars = [x for x in ast.walk(t) if isinstance(x, ast.Name) and x.id.endswith('strategy')]
                 uses = [c.value for c in ast.walk(t) if isinstance(c, ast.Constant) and isinstance(c.value, str) and c.value.startswith('use-')]
-                if strat_vars and uses:
+                if strat_vars and (uses or any(isinstance(c, ast.Call) and last_attr_(c) == 'tryresolve' for c in ast.walk(t))):
+                    # dispatch on a use-* value, or an attempt to let the item's strategy settle the situation
                     kinds.append(('strategy', t))
                     continue
                 picks = []
